@@ -100,6 +100,7 @@ func initProperties() {
 				use("SIZEPATCH", "portable converter patches placeholder container counts", inPkgs("conv/j2t")),
 				use("BMSET", "written fields are recorded in the requires bitmap", inPkgs("conv/j2t")),
 				use("UNDOMARK", "a null value removes the whole entry it was written for", inPkgs("conv/j2t")),
+				use("COUNTERGUARD", "the portable skipper counts brackets outside strings only, in both directions", nil),
 				use("EXPCASE", "both exponent markers accepted by the portable number scanner", nil),
 				use("CASEEXIT", "kind mismatch is an error", nil),
 				use("OPTAGREE", "portable reads mapped options", nil),
@@ -362,6 +363,7 @@ func initProperties() {
 				use("PARSEPURE", "a parse leaves nothing behind for the next parse", nil),
 				use("DIVZERO", "name-index hash arithmetic never divides by zero", inPkgs("internal/caching", "internal/util")),
 				use("SERVICEONLY", "…ServiceOnly modes expose one service's methods", inPkgs("thrift")),
+				use("KEYBOTH", "MapFieldUseBoth registers alias and name", nil),
 				use("TARGETAFFINITY", "each type is parsed for the target it belongs to", nil),
 			)},
 		{ID: "C15", Title: "Protobuf descriptors mirror the schema",
@@ -420,6 +422,7 @@ func initProperties() {
 				use("STUBTABLE", "flavour tables", nil),
 				use("CURSORREL", "native skip result is added to the cursor", thriftPkg),
 				use("UNDOMARK", "portable converter removes null entries completely, as the native one does", inPkgs("conv/j2t")),
+				use("COUNTERGUARD", "the portable skipper counts brackets outside strings only, in both directions", nil),
 				use("EXPCASE", "both exponent markers accepted by the portable number scanner", nil),
 				use("TAGPARTITION", "one implementation per platform", nil),
 				use("OPTAGREE", "same options", nil),
@@ -472,6 +475,7 @@ func initProperties() {
 				use("MSGNARROW", "repeated/map walkers cannot leave the embedded message", protoBinary),
 				use("ELEMTAG", "unpacked list elements carry the element's wire type", protoBinary),
 				use("BOOLNONZERO", "a bool is true for every non-zero varint", nil),
+				use("PREFIXBOUND", "a decoded length is compared with the bytes after its prefix", nil),
 				use("WIREEXH", "group / invalid wire types are an error, not a silent no-op", nil),
 				use("GROWCOPY", "speculative length re-allocation keeps the payload", nil),
 				use("VARINTNARROW", "varint lengths bounded before narrowing", nil),
